@@ -687,6 +687,26 @@ def job_bounded_modules(tier, rng):
                 chk(safe(lambda: (lambda R: R.min() > -2 and R.max() < 3)(_tnp(M.OpenInterval(-2, 3, batch_size=bs, dtype=dt)()))), cls='OpenInterval', dtype=dt, batch=bs)
                 for method in ('softplus', 'exp'):
                     chk(safe(lambda: _tnp(M.PositiveReal(batch_size=bs, method=method, dtype=dt)()).min() > 0), cls='PositiveReal', method=method, dtype=dt, batch=bs)
+        # convenience constructors (thin wrappers that must hand back the right manifold object)
+        if not real:
+            chk(safe(lambda: np.abs(np.linalg.norm(_tnp(M.quantum_state(3, dtype=dt)())) - 1) < tol * 10), cls='quantum_state', dtype=dt)
+            chk(safe(lambda: _herm_psd_tr1(_tnp(M.density_matrix(3, rank=2, dtype=dt)()), 2, tol)), cls='density_matrix', dtype=dt)
+            chk(safe(lambda: _su_ok(_tnp(M.quantum_gate(3, dtype=dt)()), 3, tol * 10, det1=True)), cls='quantum_gate', dtype=dt)
+        # symmetric_matrix_to_trace1PSD: exp(A - lambda_max I) normalised; sizes <= 5 (dense eigvalsh) and 6 (sparse eigsh), both backends, batches
+        if dt in (torch.float64, torch.complex128):
+            for n_ in (1, 2, 3, 5, 6):
+                for bshape in ((), (3,), (2, 2)):
+                    def fsym():
+                        x = rng.normal(size=bshape + (n_, n_)) * 3
+                        if not real:
+                            x = x + 1j * rng.normal(size=bshape + (n_, n_)) * 3
+                        x = x + np.swapaxes(x.conj(), -1, -2)
+                        ok_ = True
+                        for backend in ('numpy', 'torch'):
+                            R = _tnp(mi.symmetric_matrix_to_trace1PSD(torch.tensor(x) if backend == 'torch' else x))
+                            ok_ = ok_ and R.shape == x.shape and all(_herm_psd_tr1(m_, n_, 1e-9) for m_ in R.reshape(-1, n_, n_))
+                        return ok_
+                    chk(safe(fsym), cls='symmetric_matrix_to_trace1PSD', dtype=dt, n=n_, batch=bshape)
         # composite classes
         for dA, dB in [(2, 2), (2, 3)]:
             def fsep():
